@@ -38,9 +38,15 @@ KINDS: dict[str, str] = {}
 def _ci_matcher(ci: Obj, v: str):  # noqa: ANN202
     """What the unoptimized `^"..."` node matches: its own compiled pattern and flags, read from the model object
     CIString.__init__ built (C12's CASE rule pins those flags to re.I | re.A)."""
-    pat = ci.__dict__.get("_re")
-    if not (isinstance(pat, Obj) and isinstance(pat.__dict__.get("pattern"), str) and isinstance(pat.__dict__.get("flags"), int)):
-        raise AnalysisError("anchor vanished: CIString.__init__ no longer stores a compiled pattern in _re")
+    pats = [x for x in ci.__dict__.values() if isinstance(x, Obj) and isinstance(x.__dict__.get("pattern"), str) and isinstance(x.__dict__.get("flags"), int)]
+    if not pats:
+        # no compiled pattern on the node (e.g. a comparison of case-mapped text): the reference is the definition,
+        # which C12's TERM-SEM rule decides for the node itself
+        def m_def(w: str) -> int | None:
+            return len(v) if _ascii_fold(w[: len(v)]) == _ascii_fold(v) and len(w) >= len(v) else None
+
+        return m_def
+    pat = pats[0]
     flags = pat.flags
     known = int(re.I) | int(re.A)
     if flags & ~known:
